@@ -12,8 +12,9 @@ import (
 func zzBin(name string, nBytes int) (Binary, []byte, int64, int64, int) {
 	src := vrt.Bytes(name, nBytes)
 	unit := []int{1, 8}[vrt.Choice(name+".unit", 2)]
-	start := int64(vrt.IntRange(name+".start", 0, 9))
-	n := int64(vrt.IntRange(name+".len", 0, 8*nBytes-9))
+	start := int64([]int{0, 3, 8, 9}[vrt.Choice(name+".start", 4)])
+	lens := []int{0, 1, 7, 8, 9, 13, 8*nBytes - 9}
+	n := int64(lens[vrt.Choice(name+".len", len(lens))])
 	return Binary{br: bitio.NewBitReader(src, -1), r: ranges.Range{Start: start, Len: n}, unit: unit}, src, start, n, unit
 }
 
@@ -39,6 +40,12 @@ func VerifBinarySlice() {
 	vrt.Assert(ok2 && k == int64((e-s)*unit), "binary: slice has (to-from) units")
 	vrt.Assert(zzSameBits(got, k, 0, src, start+int64(s*unit)), "binary: slice bits = sub-sequence of the source bits")
 	vrt.Assert(sl.unit == unit, "binary: slice keeps the unit")
+}
+
+// VerifBinaryIndexKeys: indexing and the size/start/stop/unit/bits/bytes keys.
+func VerifBinaryIndexKeys() {
+	b, src, start, n, unit := zzBin("b", 4)
+	length := b.JQValueLength().(int)
 	if length > 0 {
 		i := vrt.IntRange("index", 0, length-1)
 		v, ok := b.JQValueIndex(i).(*big.Int)
